@@ -120,10 +120,8 @@ def gen_cases(tier, want_mirror=True):
                 ("full", full, [3], [(1, 0.0)]),
                 ("deep", deep, [4, 5], [(1, SRS)])]
     else:
-        plan = [("full", full, [1, 2, 3], [(1, 0.0), (1, SRS), (-1, SRS)]),
-                ("mid", mid, [4], [(1, 0.0), (1, SRS), (-1, SRS)]),
-                ("deep", deep, [4, 5, 6], [(1, 0.0), (1, SRS), (-1, SRS)])]
-        big = [("full", full, [4], [(1, SRS)]), ("mid", mid, [5], [(1, 0.0)])]
+        plan = [("full", full, [1, 2, 3], [(1, 0.0), (1, SRS), (-1, SRS)])]
+        big = [("mid", mid, [4], [(1, 0.0), (-1, SRS)]), ("deep", deep, [4, 5, 6], [(1, SRS)]), ("deep", deep, [4, 5], [(1, 0.0)])]
     for pal in pals:
         for fam, T, ns, variants in plan:
             for n in ns:
